@@ -27,6 +27,7 @@ PairOK(ev) ==
   /\ ev.diff = Enc(x \ y, ty) /\ ev.sym = Enc((x \ y) \cup (y \ x), ty)
   /\ ev.memb = (LET q == SortBy(y, ty.c[1]) IN [i \in 1..Len(q) |-> q[i] \in x])
   /\ ev.copyIntact
-PropC15 == CASE seen.e = "Pair" -> PairOK(seen) [] OTHER -> TRUE
+PropC15 == CASE seen.e = "Pair" -> PairOK(seen) [] seen.e = "Fault" -> FALSE   \* the recorded execution crashed / threw / hung
+             [] OTHER -> TRUE
 TraceAccepted == TLCGet("stats").diameter - 1 = Len(TraceLog)
 =============================================================================
